@@ -86,6 +86,14 @@ def corpus():
                                                                              (-10, dict(q, src='10.0.0.8', questions=[(T1, 12, False), ('zz.local.', 1, False)]))],
              second=None),
         dict(common_, svcs=[s0, s1], victim=0, queries=[(-600, q), (-300, dict(q, src='10.0.0.8'))], second=400),
+        # two services on one host, one with an IPv4 address only, one dual: an AAAA question for the host is answered by the NSEC record of the
+        # first (no additionals) and the AAAA record of the second (additional: the A record); held by the one-second protection while the
+        # dual one and then the other are unregistered - the A record must not ride out as an additional after its goodbye
+    ] + [
+        dict(common_, svcs=[dict(s0, v6=[]), dict(s1, v4=v4)], victim=1, second=sec,
+             queries=[(a, dict(q, questions=[('hs.local.', 28, False), ('zz.local.', 1, False)])),
+                      (b, dict(q, src='10.0.0.8', questions=[('hs.local.', 28, False), ('zz.local.', 1, False)]))])
+        for (a, b, sec) in ((-200, -50, 130), (-600, -300, 400), (-300, -100, 130))
     ]
 
 
